@@ -98,6 +98,8 @@ def opOfJson (j : Json) : Except String Op := do
   | "read" => pure (.read (← pathOfJson j))
   | "touch" => pure .touch
   | "endSession" => pure .endSession
+  | "commit" => pure .commit
+  | "rollback" => pure .rollback
   | "delete" => pure .delete
   | "other" => pure .other
   | "assign" => pure (.assign (← argT j "v"))
@@ -112,7 +114,7 @@ def strOfErr : Err → String
 
 def jsonOfSt (s : St) (e : Option Err) : Json :=
   Json.mkObj [("err", match e with | none => .null | some e => .str (strOfErr e)),
-              ("dirty", .bool s.dirty), ("doc", jsonOfT s.doc), ("db", jsonOfT s.db), ("allW", .bool (allW s.doc)),
+              ("dirty", .bool s.dirty), ("doc", jsonOfT s.doc), ("db", jsonOfT s.db), ("committed", jsonOfT s.committed), ("allW", .bool (allW s.doc)),
               ("status", .str (match s.status with
                 | .created => "created" | .loaded => "loaded" | .inserted => "inserted" | .updated => "updated" | .modified => "modified"
                 | .deleted => "deleted" | .over => "over"))]
